@@ -542,6 +542,8 @@ def g_nfah_incl(rng):
     steps = [f"def:{A.tok()}", f"def:{B.tok()}", "incl:0:1", "incl:1:0"]
     if rng.random() < 0.3:
         steps += ["union:0:1", "incl:0:2", "incl:2:1"]
+    if rng.random() < 0.03:
+        steps += ["inclall:0:1"]
     return "nfah " + " ".join(steps)
 
 
